@@ -52,6 +52,7 @@ type Op struct {
 	MoreUpdateMask *fieldmaskpb.FieldMask
 	ResetMask      *fieldmaskpb.FieldMask
 	MoreWritable   *fieldmaskpb.FieldMask
+	MoreWritable2  *fieldmaskpb.FieldMask // a second extra-writable option in the same call
 	AllWritable    bool
 
 	Expected      proto.Message // WithExpectedValue
@@ -112,6 +113,7 @@ func (o Op) String() string {
 	opt("moreUpdateMask", o.MoreUpdateMask)
 	opt("resetMask", o.ResetMask)
 	opt("moreWritable", o.MoreWritable)
+	opt("moreWritable2", o.MoreWritable2)
 	opt("readMask", o.ReadMask)
 	if o.Include != "" {
 		fmt.Fprintf(&sb, " include=%s", o.Include)
@@ -159,6 +161,7 @@ func (o Op) OptionKey() string {
 	add(o.MoreUpdateMask != nil, "mum")
 	add(o.ResetMask != nil, "rm")
 	add(o.MoreWritable != nil, "mw")
+	add(o.MoreWritable2 != nil, "mw2")
 	add(o.AllWritable, "aw")
 	add(o.Expected != nil, "ev")
 	add(o.Check != "", "ec")
@@ -366,6 +369,9 @@ func (o Op) WriteOptionsReusing(c *OptCache, log *CallLog) []resource.WriteOptio
 	}
 	if o.MoreWritable != nil {
 		opts = append(opts, mkMask("mw", o.MoreWritable, resource.WithMoreWritableFields))
+	}
+	if o.MoreWritable2 != nil {
+		opts = append(opts, mkMask("mw", o.MoreWritable2, resource.WithMoreWritableFields))
 	}
 	if o.AllWritable {
 		opts = append(opts, mk("aw", resource.WithAllFieldsWritable))
